@@ -123,3 +123,11 @@ Theorem C01_at_the_port : forall ds port_cap out_cap s k c h,
   recv [] (at_port s k) = [].
 Proof. exact e2e_disconnect. Qed.
 Print Assumptions C01_at_the_port.
+
+(* quiescence at the port: at every event boundary of device k at which no key is down and no emulated key is engaged *)
+Theorem C01_quiescent_at_the_port_partial : forall ds port_cap out_cap s k d c h,
+  reachable (estep port_cap out_cap) (einit ds) s -> nth_error (e_devs s) k = Some d -> nth_error ds k = Some (c, h) ->
+  at_boundary s k d -> alternating h -> keys_down (d_done d) = [] -> analogT (d_state d) = [] ->
+  recv [] (at_port s k) = [].
+Proof. exact e2e_quiescent_silent. Qed.
+Print Assumptions C01_quiescent_at_the_port_partial.
